@@ -1851,6 +1851,10 @@ class Wtp:
             title = title[5:]
         if len(title) == 0:
             return None
+        if namespace_id is None:
+            # full title without namespace id: the prefix (any spelling)
+            # selects the namespace, so that it is normalised below
+            namespace_id = self.namespace_id_of_title(title)
 
         upper_case_title = title  # the first letter is upper case
         if namespace_id is not None and namespace_id != 0:
